@@ -465,6 +465,10 @@ impl Builder<'_> {
                 self.events.push(Ev::Folder { add: self.folder_present, b: false });
             }
         }
+        if self.sched.chance(1, 60) && self.folder_present {
+            // the folder is announced a second time
+            self.events.push(Ev::Folder { add: true, b: false });
+        }
         if self.sched.chance(1, 40) {
             // re-read the configuration: removed and added in one notification
             let b = !self.b_variants.is_empty() && self.sched.chance(1, 2);
